@@ -184,7 +184,7 @@ def main():
   cfg = common.load_cfg(repo)
   violations = []
   nq = 0
-  nh = 3000 if tier == 'quick' else 40000
+  nh = 40000 if tier == 'quick' else 400000
   for h in range(nh):
     ops = gen_structured(rnd) if h % 2 else gen_history(rnd, rnd.choice([6, 10, 16, 24]))
     live = World(cfg)
